@@ -3,6 +3,7 @@
 package waddrmgr
 
 import (
+	"github.com/btcsuite/btcd/btcutil/hdkeychain"
 	"github.com/btcsuite/btcwallet/walletdb"
 
 	"verif/verifrt"
@@ -140,8 +141,20 @@ func (w *zzC03World) checkAll() {
 	}))
 }
 
-func zzC03(scope KeyScope, steps int, startUnlocked bool) {
-	w := &zzC03World{zzMgrWorld: zzNewMgrWorld(zzSeedA), scope: scope}
+func zzC03(scope KeyScope, steps int, startUnlocked bool) { zzC03Seed(zzSeedA, scope, steps, startUnlocked) }
+
+func zzC03Seed(seed []byte, scope KeyScope, steps int, startUnlocked bool) {
+	w := &zzC03World{zzMgrWorld: zzNewMgrWorld(seed), scope: scope}
+	if len(seed) == len(zzSeedLegacy) && seed[3] == zzSeedLegacy[3] && seed[0] == 0 {
+		// the seed was chosen for this: check it, so that the entry is not vacuous
+		k, err := w.root.DeriveNonStandard(scope.Purpose + hdkeychain.HardenedKeyStart) // nolint:staticcheck
+		zzMust(err)
+		k, err = k.DeriveNonStandard(scope.Coin + hdkeychain.HardenedKeyStart) // nolint:staticcheck
+		zzMust(err)
+		if k.IsAffectedByIssue172() {
+			verifrt.Reach("legacy-rule-differs-from-bip32")
+		}
+	}
 	if startUnlocked {
 		zzMust(w.view(func(ns walletdb.ReadBucket) error { return w.mgr.Unlock(ns, zzPrvPass) }))
 	}
@@ -159,3 +172,4 @@ func ZzC03Bip44L3()  { zzC03(KeyScopeBIP0044, 3, true) }
 func ZzC03Bip49L3()  { zzC03(KeyScopeBIP0049Plus, 3, true) }
 func ZzC03Bip86L3()  { zzC03(KeyScopeBIP0086, 3, true) }
 func ZzC03Bip84L4()  { zzC03(KeyScopeBIP0084, 4, true) }
+func ZzC03LegacySeedL2() { zzC03Seed(zzSeedLegacy, KeyScopeBIP0084, 2, true) }
